@@ -16,7 +16,7 @@ import random
 from harness.core import Ctx, Failure, Broken, LeanDriver, Prop, Result
 
 CTX_NAMES = ["P", "PA", "B"]
-SIGS = ["sa", "sb"]
+SIGS = ["sa", "sa2"]          # one signal name is a proper prefix of the other
 
 
 # ---------------------------------------------------------------------------
@@ -26,9 +26,10 @@ SIGS = ["sa", "sb"]
 def gen_spec(rng: random.Random, big: bool) -> dict:
     nctx = rng.choice([1, 2, 2, 3, 3])
     ctxs = CTX_NAMES[:nctx]
-    pubs = [["P", "pub"]]
+    # object names in prefix relation (pm1 < pm10), like the context names (P < PA) and the signal names (sa < sa2)
+    pubs = [["P", "pm1"]]
     if rng.random() < 0.6:
-        pubs.append(["P", "pub2"])
+        pubs.append(["P", "pm10"])
     if nctx >= 2 and rng.random() < 0.5:
         pubs.append(["PA", "apub"])
     task = rng.random() < 0.5
@@ -82,8 +83,12 @@ def gen_spec(rng: random.Random, big: bool) -> dict:
     for (pc, pn) in pubs:                                   # a second caller thread publishing through the same object
         if pn != "tsk" and rng.random() < 0.3:
             second[f"{pc}.{pn}"] = [rng.choice(SIGS) for _ in range(rng.randint(2, 8))]
+    late = None
+    if ["P", "pm10"] in pubs and rng.random() < 0.6:
+        # after the first bursts: remove the shorter-named publisher, then the longer-named one publishes again
+        late = {"remove": ["P", "pm1"], "burst": {"P.pm10": [rng.choice(SIGS) for _ in range(rng.randint(2, 8))]}}
     return {"ctxs": ctxs, "pubs": pubs, "rcvs": rcvs, "threads": threads, "presub": presub, "bursts": bursts,
-            "second": second, "policy": rng.choice(["weighted", "weighted", "pct"])}
+            "second": second, "late": late, "policy": rng.choice(["weighted", "weighted", "pct"])}
 
 
 # ---------------------------------------------------------------------------
@@ -97,7 +102,7 @@ def _classes():
 
     class Pub(QMI_RpcObject):
         sa = QMI_Signal([int])
-        sb = QMI_Signal([int])
+        sa2 = QMI_Signal([int])
 
         @rpc_method
         def burst(self, items):
@@ -227,6 +232,19 @@ def run_c07(seed, spec: dict, change_points=None, trace_funcs=()):
                     raise
                 except BaseException as e:  # noqa  (the task's run() died: a publish call raised)
                     errors.append(("publish", pc, pn, "sa", type(e).__name__))
+            late = spec.get("late")
+            if late:
+                (pc, pn) = late["remove"]
+                PC.drain(w)
+                try:
+                    ctxs[pc].remove_rpc_object(proxies[(pc, pn)])
+                    for key, sigs in late["burst"].items():
+                        (bc, bn) = key.split(".")
+                        proxies[(bc, bn)].rpc_nonblocking.burst(items(sigs)).wait()
+                except D.SchedAbort:
+                    raise
+                except BaseException as e:  # noqa
+                    errors.append(("publish", pc, pn, "*", type(e).__name__))
             PC.drain(w)
             tr.note_keys(spec["ctxs"], [p[1] for p in spec["pubs"]], SIGS)
             for i in range(len(spec["ctxs"])):
@@ -296,10 +314,16 @@ def oracle(spec: dict, out, tr) -> list:
             if b is not None:
                 dls.append((e[2], e[3], e[4], b, n))
     END = len(ev) + 1
+    removed_at = {}    # (ctx name, publisher) -> event index of the begin of remove_rpc_object
+    for n, e in enumerate(ev):
+        if e[1] == "rm-begin":
+            removed_at[([k for k, v in tr.ctx_ids.items() if v == e[2]][0], e[4])] = n
 
     def definitely_subscribed(key, lo, hi) -> bool:
         """some successful subscribe returned before lo and no unsubscribe was in progress or began in (that return, hi]"""
         ops = subs.get(key, [])
+        if removed_at.get((key[1], key[2]), END + 1) <= hi:
+            return False          # the publisher is (being) removed: that ends the subscription
         for (kind, b, e_, exc) in ops:
             if kind == "sub" and exc is None and e_ < lo:
                 if not any(k2 == "unsub" and e2 > b and b2 <= hi for (k2, b2, e2, x2) in ops):
@@ -510,11 +534,13 @@ class C07(Prop):
             return res
         # systematic sweep: a dense scenario (three receivers on one key, local and remote, concurrent (un)subscribe),
         # priority scheduling with the demotion point swept over every yield index
-        spec = {"ctxs": ["P", "PA"], "pubs": [["P", "pub"]], "rcvs": ["P", "P", "PA", "PA"],
-                "threads": [[["unsub", 0, "P", "pub", "sa"], ["sub", 0, "P", "pub", "sa"], ["unsub", 1, "P", "pub", "sa"]],
-                            [["unsub", 2, "P", "pub", "sa"], ["sub", 2, "P", "pub", "sb"], ["unsub", 3, "P", "pub", "sa"], ["sub", 3, "P", "pub", "sa"]]],
-                "presub": [[0, "P", "pub", "sa"], [1, "P", "pub", "sa"], [2, "P", "pub", "sa"], [3, "P", "pub", "sa"], [1, "P", "pub", "sb"]],
-                "bursts": {"P.pub": ["sa", "sb", "sa", "sa", "sb", "sa"]}, "second": {"P.pub": ["sa", "sa"]}, "policy": "pct"}
+        spec = {"ctxs": ["P", "PA"], "pubs": [["P", "pm1"], ["P", "pm10"]], "rcvs": ["P", "P", "PA", "PA"],
+                "threads": [[["unsub", 0, "P", "pm1", "sa"], ["sub", 0, "P", "pm1", "sa"], ["unsub", 1, "P", "pm1", "sa"]],
+                            [["unsub", 2, "P", "pm1", "sa"], ["sub", 2, "P", "pm1", "sa2"], ["unsub", 3, "P", "pm1", "sa"], ["sub", 3, "P", "pm1", "sa"]]],
+                "presub": [[0, "P", "pm1", "sa"], [1, "P", "pm1", "sa"], [2, "P", "pm1", "sa"], [3, "P", "pm1", "sa"], [1, "P", "pm1", "sa2"],
+                           [1, "P", "pm10", "sa"], [3, "P", "pm10", "sa"], [3, "P", "pm10", "sa2"]],
+                "bursts": {"P.pm1": ["sa", "sa2", "sa", "sa", "sa2", "sa"], "P.pm10": ["sa", "sa2"]}, "second": {"P.pm1": ["sa", "sa"]},
+                "late": {"remove": ["P", "pm1"], "burst": {"P.pm10": ["sa", "sa2", "sa"]}}, "policy": "pct"}
         for seed in range(ctx.scale(3, 8)):
             for k in range(1, ctx.scale(500, 900), 3 if ctx.quick else 1):
                 out, tr = run_c07(seed, spec, change_points=[k])
